@@ -48,12 +48,15 @@ fn main() {
         }
         "insphere" => ops::insphere::run(&mut out, &mut rng, thorough),
         "tess" => ops::tess::run(&mut out, &mut rng, thorough),
+        "bigtess" => ops::tess::run_big(&mut out, &mut rng, thorough),
         "cells" => ops::cells::run(&mut out, &mut rng, thorough),
         "cellsin" => ops::cells::run_file(&mut out, extra.first().expect("cellsin needs a file")),
         "iloc" => ops::iloc::run(&mut out, &mut rng, thorough),
         "geom" => ops::geom::run(&mut out, &mut rng, thorough),
         "withfaces" => ops::withfaces::run(&mut out, &mut rng, thorough),
+        "bigcell" => ops::withfaces::run_bigcell(&mut out, &mut rng, thorough),
         "sched" => ops::sched::run(&mut out, &mut rng, thorough),
+        "recip" => ops::recip::run(&mut out, &mut rng, thorough),
         "lowdim" => ops::lowdim::run(&mut out, &mut rng, thorough),
         "periodic3" => ops::periodic::run_periodic3(&mut out, &mut rng, thorough),
         "translate" => ops::periodic::run_translate(&mut out, &mut rng, thorough),
